@@ -40,6 +40,10 @@ func loadSpecs(w *World) (*SpecSet, error) {
 			return nil, err
 		}
 	}
+	w.renameNotes = healRenames(w, ss)
+	for _, n := range w.renameNotes {
+		fmt.Println("NOTE", n)
+	}
 	return ss, nil
 }
 
@@ -182,6 +186,24 @@ func main() {
 		sort.Strings(out)
 		for _, l := range out {
 			fmt.Println(l)
+		}
+	case "locals":
+		// records the declared variables of every function under contract (spec/locals.json); run after contracts change
+		w, err := loadWorld([]string{"./..."})
+		if err != nil {
+			fmt.Fprintln(os.Stderr, err)
+			os.Exit(2)
+		}
+		defer w.Close()
+		os.Remove(localsFile())
+		ss, err := loadSpecs(w)
+		if err != nil {
+			fmt.Fprintln(os.Stderr, "CONTRACT-ERROR", err)
+			os.Exit(2)
+		}
+		if err := writeLocals(w, ss); err != nil {
+			fmt.Fprintln(os.Stderr, err)
+			os.Exit(2)
 		}
 	case "funcs":
 		w, err := loadWorld([]string{"./..."})
